@@ -4,13 +4,15 @@
 (* effective switch setting: one initial state per (configuration,          *)
 (* setting), one step per theorem.  Step 4 checks the guard logic of        *)
 (* EffectiveSwitches over all flag combinations of the configuration, step  *)
+(* 6 decides which symmetry clauses survive for chords between detector     *)
+(* centres (use_actual_detector_boundaries).  Step                          *)
 (* 5 that (for rich configurations with every symmetry on) each of the 17   *)
 (* operation classes is actually chosen by some bin (vacuity guard).        *)
 EXTENDS Symmetries
-CONSTANTS Ns, Rs, MaxT, Nppr
+CONSTANTS Ns, Rs, Spans, MaxT, Nppr
 VARIABLES c, g, esw, k
 
-Raw == [N : Ns, R : Rs, span : {1, 3}, dred : 0..1, mash : {1, 2}, tofMash : {0, 1}, T : 1..MaxT, asym : 0..1]
+Raw == [N : Ns, R : Rs, span : Spans, dred : 0..1, mash : {1, 2}, tofMash : {0, 1}, T : 1..MaxT, asym : 0..1]
 Data(x) ==
   LET c0 == [N |-> x.N, R |-> x.R, span |-> x.span, ge |-> FALSE, maxDelta |-> x.R - 1 - x.dred, mash |-> x.mash,
              tofMash |-> x.tofMash, maxT |-> 3, minTang |-> -x.T, maxTang |-> x.T - x.asym, minSeg |-> 0, maxSeg |-> 0]
@@ -27,7 +29,7 @@ Init == /\ k = 0
         /\ g \in Grids(c)
         /\ SymConfigOk(c, g)
         /\ esw \in AdmissibleEsw(c, g)
-Next == k < 5 /\ k' = k + 1 /\ UNCHANGED <<c, g, esw>>
+Next == k < 6 /\ k' = k + 1 /\ UNCHANGED <<c, g, esw>>
 vars == <<c, g, esw, k>>
 Spec == Init /\ [][Next]_vars
 
@@ -54,4 +56,9 @@ Inv4 == k = 4 => EffProps
 
 Rich == NumViews(c) % 4 = 0 /\ NumViews(c) >= 8 /\ c.R >= 2 /\ c.maxTang >= 1 /\ c.maxSeg >= 1 /\ esw.s90 /\ esw.sseg /\ esw.ss /\ esw.sz
 Inv5 == (k = 5 /\ Rich) => { FindOp(c, g, esw, b).name : b \in AllBins(c) } = { o.name : o \in OpClasses }
+\* chords between detector centres (use_actual_detector_boundaries): which clauses survive; the relation
+\* does fail somewhere once a phi symmetry is on (so the clause is not vacuous)
+Inv6 == (k = 6 /\ c.mash = 1 /\ c.span = 1) =>
+          /\ ChordClauses(c, g, esw)
+          /\ (esw.s180 /\ c.maxTang >= 1 /\ c.minTang <= -1 /\ NumViews(c) >= 4) => \E b \in AllBins(c) : ~S2det(c, g, esw, b)
 =============================================================================
